@@ -1,10 +1,26 @@
 import Driver.Util
-import CtyModel.Val
+import CtyModel.Marks
 open CtyModel
+
+def marksStr (ms : List String) : String :=
+  toString (Sexp.list (ms.map Sexp.encStr))
 
 def handleVal : Handler := fun op args =>
   match op, args with
   | "val.echo", [v] => do
     let v ← Value.ofSexp v
     pure (toString v.toSexp)
+  | "val.obs", [v] => do
+    let v ← Value.ofSexp v
+    pure (s!"{Sexp.encBool v.isNull} {Sexp.encBool v.isKnown} {Sexp.encBool v.isMarked} {Sexp.encBool v.containsMarked} {Sexp.encBool v.whollyKnown} {marksStr v.marks} {marksStr v.marksDeep}")
+  | "val.unmarkdeep", [v] => do
+    let v ← Value.ofSexp v
+    pure (toString v.unmarkDeep.toSexp)
+  | "val.unmark", [v] => do
+    let v ← Value.ofSexp v
+    pure (toString v.unmark.toSexp)
+  | "val.withmarks", [v, .list ms] => do
+    let v ← Value.ofSexp v
+    let ms ← ms.mapM Sexp.decStr
+    pure (toString (v.withMarks (unionMarks ms [])).toSexp)
   | _, _ => none
